@@ -567,6 +567,11 @@ def allKeys : Fields → List String
   | .embedded _ fs rest => allKeys fs ++ allKeys rest
   | .inlined code fs rest => typeKeys code ++ (allKeys fs ++ allKeys rest)
 
+/-- object codes are `uint8` or `uint32` numbers. -/
+def codeOk : Option Nat → Bool
+  | none => true
+  | some c => c < 2 ^ 32
+
 /-- an interface alternative is a (pointer to a) struct carrying exactly the registered code, or a
 pointer to a typed byte array with that code. -/
 def altShape (c : Nat) : JTy → Bool
@@ -591,7 +596,8 @@ Excluded, with the reason:
 * pointers to anything but struct / time / array (the encoder has no branch for them);
 * interface alternatives that are not a (pointer to a) struct with exactly the registered code or
   a pointer to a typed byte array with that code, codes ≥ 2^32, duplicate codes;
-* integer widths other than 8/16/32/64, float widths other than 32/64. -/
+* integer widths other than 8/16/32/64, float widths other than 32/64, object codes ≥ 2^32
+  (they are `uint8`/`uint32` in Go). -/
 def expressible : JTy → Bool
   | .bool => true
   | .uint w => w = 8 || w = 16 || w = 32 || w = 64
@@ -606,14 +612,14 @@ def expressible : JTy → Bool
   | .slice _ e => expressible e
   | .array _ e => expressible e
   | .map _ k v => k.keyOk && expressible k && expressible v
-  | .struct code fs => nodupB (typeKeys code ++ allKeys fs) && fieldsExpressible fs
+  | .struct code fs => codeOk code && nodupB (typeKeys code ++ allKeys fs) && fieldsExpressible fs
   | .ptr t => t.ptrEncodable && expressible t
   | .iface alts => altsExpressible alts []
 def fieldsExpressible : Fields → Bool
   | .nil => true
   | .named _ opt _ t rest => (!opt || t.nilable) && expressible t && fieldsExpressible rest
   | .embedded _ fs rest => fieldsExpressible fs && fieldsExpressible rest
-  | .inlined _ fs rest => fieldsExpressible fs && fieldsExpressible rest
+  | .inlined code fs rest => codeOk code && fieldsExpressible fs && fieldsExpressible rest
 def altsExpressible : Alts → List Nat → Bool
   | .nil, _ => true
   | .cons c t rest, seen =>
@@ -627,7 +633,7 @@ instance (t : JTy) : Decidable (JsonExpressible t) := inferInstanceAs (Decidable
 /-- pairwise distinct keys of a Go map value. -/
 def distinctKeys : List (Val × Val) → Bool
   | [] => true
-  | p :: ps => !ps.any (fun q => q.1.keyEq p.1) && distinctKeys ps
+  | p :: ps => !ps.any (fun q => p.1.keyEq q.1) && distinctKeys ps
 
 mutual
 /-- **`ValExpressible`** as a Boolean function: `v` is a value of type `t` (integers in range,
